@@ -9,6 +9,7 @@ func init() {
 		kinds := ruleFMT(r, "C07", true, true, true, true, true, true, true, false)
 		ruleWriteToFlushFirst(r, "C07.SEQ.flush", kinds)
 		ruleHybridPartOrder(r, "C07.HYB")
+		ruleHybridFlagBytes(r, "C07.HYB.FLAGS")
 		ruleImplicitInvariants(r, "C07.FMT1.inv")
 		r.FloorCheck("C07.FMT1", 16)
 		r.FloorCheck("C07.FMT2", 14)
